@@ -5,6 +5,7 @@
 //!   (19 1 w tag n) (19 2 w tag) (19 3 w tag op a b) (19 4 tag op abits bbits)
 //!   (19 5 ty A B C s) (19 6 ty X Y s) (19 7 ty n) (19 8 ty op (an ad) (bn bd))
 //!   (19 9 ty op ka a kb b) (19 10 ty p r (x ..) (a b c d))
+//!   (19 11 tag fn abits bbits) (19 12 ty (x ..) (rows cols data) p r) (19 13 ty (d ..) (v ..) (rows cols data))
 use crate::guarded;
 use crate::num::{Enc, Fp, Rat};
 use crate::sx::*;
@@ -211,6 +212,33 @@ pub fn run(args: &[Sx]) -> Sx {
                 return bad_case();
             };
             float_case(tag, o, a, b)
+        }
+        11 if args.len() == 5 => {
+            let (Some(tag), Some(f), Some(a), Some(b)) =
+                (args[1].i64(), args[2].i64(), args[3].int(), args[4].int())
+            else {
+                return bad_case();
+            };
+            float_extra_case(tag, f, a, b)
+        }
+        12 if args.len() == 6 => {
+            let Some(ty) = args[1].i64() else { return bad_case() };
+            match ty {
+                0 => whole_case::<Rat>(&args[2..]),
+                1 => whole_case::<Fp>(&args[2..]),
+                2 => whole_case::<Wrapping<i64>>(&args[2..]),
+                3 => whole_case::<Whole>(&args[2..]),
+                4 => whole_case::<i64>(&args[2..]),
+                _ => bad_case(),
+            }
+        }
+        13 if args.len() == 5 => {
+            let Some(ty) = args[1].i64() else { return bad_case() };
+            match ty {
+                0 => ctor_case::<Rat>(&args[2..]),
+                1 => ctor_case::<Fp>(&args[2..]),
+                _ => bad_case(),
+            }
         }
         5..=10 if args.len() >= 3 => {
             let Some(ty) = args[1].i64() else { return bad_case() };
@@ -665,4 +693,293 @@ fn everywhere_at_rat() -> usize {
     call!(la::f1_score::<Trace<Rat>>(Trace::constant(q(1)), Trace::variable(q(3))));
     call!(la::mean(data.iter().cloned().map(Record::constant)));
     ran
+}
+
+// ------------------------------------------------------------------ a user-defined whole-number type
+/// The BigInt wrapper of src/using_custom_types.rs: every operation `Numeric` asks for, division
+/// truncating toward zero (and total: x / 0 = 0, as the model's Z.quot) — NOT a field, so
+/// `a / n` and `a * (1 / n)` differ and a generic routine has to follow its documented formula.
+#[derive(Clone, Debug, PartialEq, Eq, PartialOrd, Ord)]
+pub struct Whole(pub BigInt);
+
+impl Whole {
+    fn div_(&self, o: &Whole) -> Whole {
+        use num_traits::Zero;
+        if o.0.is_zero() {
+            Whole(BigInt::zero())
+        } else {
+            Whole(&self.0 / &o.0)
+        }
+    }
+}
+macro_rules! whole_bin {
+    ($Tr:ident, $m:ident, |$a:ident, $b:ident| $e:expr) => {
+        impl $Tr<Whole> for Whole {
+            type Output = Whole;
+            fn $m(self, rhs: Whole) -> Whole {
+                let ($a, $b) = (&self, &rhs);
+                $e
+            }
+        }
+        impl<'r> $Tr<&'r Whole> for Whole {
+            type Output = Whole;
+            fn $m(self, rhs: &Whole) -> Whole {
+                let ($a, $b) = (&self, rhs);
+                $e
+            }
+        }
+        impl<'l> $Tr<Whole> for &'l Whole {
+            type Output = Whole;
+            fn $m(self, rhs: Whole) -> Whole {
+                let ($a, $b) = (self, &rhs);
+                $e
+            }
+        }
+        impl<'l, 'r> $Tr<&'r Whole> for &'l Whole {
+            type Output = Whole;
+            fn $m(self, rhs: &Whole) -> Whole {
+                let ($a, $b) = (self, rhs);
+                $e
+            }
+        }
+    };
+}
+whole_bin!(Add, add, |a, b| Whole(&a.0 + &b.0));
+whole_bin!(Sub, sub, |a, b| Whole(&a.0 - &b.0));
+whole_bin!(Mul, mul, |a, b| Whole(&a.0 * &b.0));
+whole_bin!(Div, div, |a, b| a.div_(b));
+impl Neg for Whole {
+    type Output = Whole;
+    fn neg(self) -> Whole {
+        Whole(-self.0)
+    }
+}
+impl Neg for &Whole {
+    type Output = Whole;
+    fn neg(self) -> Whole {
+        Whole(-&self.0)
+    }
+}
+impl std::iter::Sum for Whole {
+    fn sum<I: Iterator<Item = Whole>>(iter: I) -> Whole {
+        iter.fold(Whole(BigInt::from(0)), |a, b| a + b)
+    }
+}
+impl ZeroOne for Whole {
+    fn zero() -> Whole {
+        Whole(BigInt::from(0))
+    }
+    fn one() -> Whole {
+        Whole(BigInt::from(1))
+    }
+}
+impl FromUsize for Whole {
+    fn from_usize(n: usize) -> Option<Whole> {
+        Some(Whole(BigInt::from(n)))
+    }
+}
+
+/// Encoding of the element types of `(19 12 ..)` (kept apart from `Enc`: i64 is not an `Enc`).
+trait WEnc: Sized {
+    fn wenc(&self) -> Sx;
+    fn wdec(s: &Sx) -> Option<Self>;
+}
+impl WEnc for Rat {
+    fn wenc(&self) -> Sx { self.enc() }
+    fn wdec(s: &Sx) -> Option<Self> { Rat::dec(s) }
+}
+impl WEnc for Fp {
+    fn wenc(&self) -> Sx { self.enc() }
+    fn wdec(s: &Sx) -> Option<Self> { Fp::dec(s) }
+}
+impl WEnc for Wrapping<i64> {
+    fn wenc(&self) -> Sx { self.enc() }
+    fn wdec(s: &Sx) -> Option<Self> { <Wrapping<i64> as Enc>::dec(s) }
+}
+impl WEnc for Whole {
+    fn wenc(&self) -> Sx { z(self.0.clone()) }
+    fn wdec(s: &Sx) -> Option<Self> { Some(Whole(s.int()?.clone())) }
+}
+impl WEnc for i64 {
+    fn wenc(&self) -> Sx { z(*self) }
+    fn wdec(s: &Sx) -> Option<Self> { s.i64() }
+}
+
+/// (19 12 ty (x ..) (rows cols data) p r): the division-bearing generic routines of
+/// linear_algebra through every entry point, at any `Numeric` element type.
+fn whole_case<T>(args: &[Sx]) -> Sx
+where
+    T: Numeric + WEnc + PartialEq + 'static,
+    for<'a> &'a T: NumericRef<T>,
+{
+    use easy_ml::linear_algebra as la;
+    use easy_ml::tensors::views::TensorView;
+    let dec_list = |s: &Sx| -> Option<Vec<T>> { s.list()?.iter().map(T::wdec).collect() };
+    let Some(m) = args[1].list() else { return bad_case() };
+    if m.len() != 3 {
+        return bad_case();
+    }
+    let (Some(xs), Some(rows), Some(cols), Some(data), Some(p), Some(r)) =
+        (dec_list(&args[0]), m[0].usize(), m[1].usize(), dec_list(&m[2]), T::wdec(&args[2]), T::wdec(&args[3]))
+    else {
+        return bad_case();
+    };
+    if xs.is_empty() || rows == 0 || cols == 0 || rows.checked_mul(cols) != Some(data.len()) {
+        return bad_case();
+    }
+    let scalar = |r: Option<T>| match r {
+        Some(v) => ok(v.wenc()),
+        None => panicked(),
+    };
+    let rows_of = |n: usize, c: usize, it: &mut dyn Iterator<Item = T>| -> Sx {
+        let v: Vec<T> = it.collect();
+        l((0..n).map(|i| l(v[i * c..(i + 1) * c].iter().map(|x| x.wenc()).collect())).collect())
+    };
+    let mat = |r: Option<Matrix<T>>| match r {
+        Some(m) => {
+            let (n, c) = m.size();
+            ok(rows_of(n, c, &mut m.row_major_iter()))
+        }
+        None => panicked(),
+    };
+    let ten = |r: Option<Tensor<T, 2>>| match r {
+        Some(t) => {
+            let s = t.shape();
+            if s[0].0 != "i" || s[1].0 != "j" {
+                return inconsistent(1975);
+            }
+            ok(rows_of(s[0].1, s[1].1, &mut t.iter()))
+        }
+        None => panicked(),
+    };
+    let matrix = Matrix::from_flat_row_major((rows, cols), data.clone());
+    let tensor = Tensor::from([(dim(0), rows), (dim(1), cols)], data);
+    let mut out = vec![
+        scalar(guarded(|| la::mean(xs.iter().cloned()))),
+        scalar(guarded(|| la::variance(xs.iter().cloned()))),
+    ];
+    // the matrix routines: free function and method
+    let cc = mat(guarded(|| la::covariance_column_features::<T>(&matrix)));
+    if cc != mat(guarded(|| matrix.covariance_column_features())) {
+        return inconsistent(1976);
+    }
+    out.push(cc);
+    let cr = mat(guarded(|| la::covariance_row_features::<T>(&matrix)));
+    if cr != mat(guarded(|| matrix.covariance_row_features())) {
+        return inconsistent(1977);
+    }
+    out.push(cr);
+    // the tensor routine: free function (tensor, &tensor, view), Tensor::covariance, TensorView::covariance
+    for d in 0..2usize {
+        let forms = [
+            ten(guarded(|| la::covariance::<T, _, _>(&tensor, dim(d)))),
+            ten(guarded(|| la::covariance::<T, _, _>(tensor.clone(), dim(d)))),
+            ten(guarded(|| la::covariance::<T, _, _>(TensorView::from(&tensor), dim(d)))),
+            ten(guarded(|| tensor.covariance(dim(d)))),
+            ten(guarded(|| TensorView::from(&tensor).covariance(dim(d)))),
+        ];
+        for (i, f) in forms.iter().enumerate() {
+            if *f != forms[0] {
+                return inconsistent(1978 + 10 * d as i64 + 100 * i as i64);
+            }
+        }
+        out.push(forms[0].clone());
+    }
+    match guarded(|| la::f1_score::<T>(p.clone(), r.clone())) {
+        Some(v) => out.push(v.wenc()),
+        None => out.push(panicked()),
+    }
+    l(out)
+}
+
+/// (19 13 ty (d ..) (v ..) (rows cols data)): routines no other property instantiates at the
+/// user types.
+fn ctor_case<T>(args: &[Sx]) -> Sx
+where
+    T: easy_ml::numeric::extra::Real + Numeric + Primitive + Enc + PartialEq + 'static,
+    for<'a> &'a T: easy_ml::numeric::extra::RealRef<T> + NumericRef<T>,
+{
+    use easy_ml::matrices::iterators::{ColumnMajorOwnedIterator, RowMajorOwnedIterator};
+    use easy_ml::numeric::extra::Pi;
+    use easy_ml::tensors::indexing::TensorOwnedIterator;
+    let Some(m) = args[2].list() else { return bad_case() };
+    if m.len() != 3 {
+        return bad_case();
+    }
+    let (Some(d), Some(v), Some(rows), Some(cols), Some(data)) = (
+        crate::num::dec_list::<T>(&args[0]),
+        crate::num::dec_list::<T>(&args[1]),
+        m[0].usize(),
+        m[1].usize(),
+        crate::num::dec_list::<T>(&m[2]),
+    ) else {
+        return bad_case();
+    };
+    if d.is_empty() || v.is_empty() || rows == 0 || cols == 0 || rows.checked_mul(cols) != Some(data.len()) {
+        return bad_case();
+    }
+    let enc_list = |v: Vec<T>| l(v.iter().map(|x| x.enc()).collect());
+    let scalar = |r: Option<T>| match r {
+        Some(v) => ok(v.enc()),
+        None => panicked(),
+    };
+    let n = v.len();
+    let diag = Matrix::from_diagonal(d);
+    let (dr, dc) = diag.size();
+    let matrix = Matrix::from_flat_row_major((rows, cols), data.clone());
+    let tensor = Tensor::from([(dim(0), rows), (dim(1), cols)], data);
+    let tpi = <Trace<T> as Pi>::pi();
+    let rpi = <Record<T> as Pi>::pi();
+    l(vec![
+        l(vec![z(dr), z(dc), enc_list(diag.row_major_iter().collect())]),
+        Tensor::from([(dim(0), n)], v.clone()).euclidean_length().enc(),
+        scalar(guarded(|| Matrix::from_flat_row_major((n, 1), v.clone()).euclidean_length())),
+        scalar(guarded(|| Matrix::from_flat_row_major((1, n), v.clone()).euclidean_length())),
+        enc_list(RowMajorOwnedIterator::from_numeric(matrix.clone()).collect()),
+        enc_list(ColumnMajorOwnedIterator::from_numeric(matrix).collect()),
+        enc_list(TensorOwnedIterator::from_numeric(tensor).collect()),
+        l(vec![tpi.number.enc(), tpi.derivative.enc()]),
+        l(vec![rpi.number.enc(), opt(rpi.history().map(|_| z(0))), z(rpi.index)]),
+    ])
+}
+
+/// (19 11 tag fn abits bbits): Sqrt / Exp / Ln / Sin / Cos (by value and by reference), Pow (all
+/// four forms) and Pi of f32 / f64 are the std methods, bit for bit (any NaN = any NaN).
+fn float_extra_case(tag: i64, f: i64, a: &BigInt, b: &BigInt) -> Sx {
+    use easy_ml::numeric::extra::{Cos, Exp, Ln, Pi, Pow, Sin, Sqrt};
+    use num_traits::ToPrimitive;
+    macro_rules! go {
+        ($F:ty, $a:expr, $b:expr, $pi:expr) => {{
+            let (a, b): ($F, $F) = ($a, $b);
+            let (forms, expected): (Vec<$F>, $F) = match f {
+                0 => (vec![Sqrt::sqrt(a), Sqrt::sqrt(&a)], <$F>::sqrt(a)),
+                1 => (vec![Exp::exp(a), Exp::exp(&a)], <$F>::exp(a)),
+                2 => (vec![Ln::ln(a), Ln::ln(&a)], <$F>::ln(a)),
+                3 => (vec![Sin::sin(a), Sin::sin(&a)], <$F>::sin(a)),
+                4 => (vec![Cos::cos(a), Cos::cos(&a)], <$F>::cos(a)),
+                5 => (vec![Pow::pow(a, b), Pow::pow(a, &b), Pow::pow(&a, b), Pow::pow(&a, &b)], <$F>::powf(a, b)),
+                6 => (vec![<$F as Pi>::pi()], $pi),
+                _ => return bad_case(),
+            };
+            if forms.iter().any(|r| r.to_bits() != expected.to_bits() && !(r.is_nan() && expected.is_nan())) {
+                return inconsistent(1955);
+            }
+            if f == 6 {
+                l(vec![z(1), z(forms[0].to_bits())])
+            } else {
+                l(vec![z(1)])
+            }
+        }};
+    }
+    match tag {
+        12 => {
+            let (Some(a), Some(b)) = (a.to_u32(), b.to_u32()) else { return bad_case() };
+            go!(f32, f32::from_bits(a), f32::from_bits(b), std::f32::consts::PI)
+        }
+        13 => {
+            let (Some(a), Some(b)) = (a.to_u64(), b.to_u64()) else { return bad_case() };
+            go!(f64, f64::from_bits(a), f64::from_bits(b), std::f64::consts::PI)
+        }
+        _ => bad_case(),
+    }
 }
